@@ -81,8 +81,9 @@ def main():
                 break
         if keep and out["demo_passes_unchanged"] and out["demo_fails_changed"] and out["tests_pass"]:
             os.makedirs(keep, exist_ok=True)
-            shutil.copy(os.path.join(src, "patch.diff"), keep)
-            shutil.copy(demo, keep)
+            if os.path.realpath(keep) != os.path.realpath(src):
+                shutil.copy(os.path.join(src, "patch.diff"), keep)
+                shutil.copy(demo, keep)
             meta = {}
             mp = os.path.join(src, "meta.json")
             if os.path.exists(mp):
